@@ -24,7 +24,8 @@ try:
         # SWEEP_STRIDE=k: every k-th check per change, rotating with the change (a third of all pairs for k=3) - for when the
         # whole sweep (18 x 20 quick checks, several hours) does not fit
         stride = int(os.environ.get("SWEEP_STRIDE", "1"))
-        for c in ["C%02d" % i for i in range(1, 21) if (i + names.index(n)) % stride == 0]:
+        offset = int(os.environ.get("SWEEP_OFFSET", "0"))
+        for c in ["C%02d" % i for i in range(1, 21) if (i + names.index(n)) % stride == offset]:
             r = subprocess.run(["./check", c, "--tier", "quick"], cwd=ROOT, env=env, capture_output=True, text=True, timeout=3600)
             res[c] = r.returncode
         out[n] = res
